@@ -363,6 +363,52 @@ func (f *family) mutations(rng *RNG, ti int) []mutation {
 		c.RootKeyId = &v
 		add("root-id-changed", c)
 	}
+	// 14 the holder of public data only: keep a prefix of the blocks (strip attenuation, possibly none)
+	// and make up a proof out of bytes every holder can read (the announced key, the signatures)
+	{
+		c := cloneEnv(t.Bytes)
+		if nb(c) >= 1 && rng.Bool() {
+			c.Blocks = c.Blocks[:rng.Intn(nb(c))]
+		}
+		last := sbAt(c, nb(c))
+		key, sig := last.NextKey.Key, last.Signature
+		pick := func(b []byte, from, to int) []byte {
+			if to > len(b) {
+				to = len(b)
+			}
+			if from > to {
+				from = to
+			}
+			return append([]byte{}, b[from:to]...)
+		}
+		var secret []byte
+		kind := rng.Intn(8)
+		switch kind {
+		case 0:
+			secret = pick(key, 0, 32)
+		case 1:
+			secret = append(rng.Bytes(32), key...)
+		case 2:
+			secret = append(pick(key, 0, 32), rng.Bytes(32)...)
+		case 3:
+			secret = append(pick(key, 0, 32), key...)
+		case 4:
+			secret = pick(sig, 0, 32)
+		case 5:
+			secret = pick(sig, 32, 64)
+		case 6:
+			secret = pick(sig, 0, 64)
+		default:
+			secret = append(attSeed, key...)
+		}
+		if rng.Chance(25) {
+			c.Proof = &pb.Proof{Content: &pb.Proof_FinalSignature{FinalSignature: pick(sig, 0, 64)}}
+			add("proof-seal-from-public-bytes", c)
+		} else {
+			c.Proof = &pb.Proof{Content: &pb.Proof_NextSecret{NextSecret: secret}}
+			add(fmt.Sprintf("proof-secret-from-public-bytes-%d", kind), c)
+		}
+	}
 	// 13 sealed token: last block / last key altered
 	if t.Sealed {
 		c := cloneEnv(t.Bytes)
@@ -414,16 +460,14 @@ func runC01(res *Result, rng *RNG, tier string, outDir string) {
 	if tier == "thorough" {
 		nfam = 40
 	}
-	var vcases, vdescs []string
-	var chainCases, chainDescs []string
-	orc := newOracle()
+	sh := newChainShards(outDir, "C01", 2)
 	rng2 := rng
 	for fi := 0; fi < nfam; fi++ {
 		r := rng2.Fork()
-		f := newFamilyShared(r, orc)
+		f := newFamilyShared(r, sh.nextFamily())
 		genFamilyInto(f, r, true)
-		chainCases = append(chainCases, f.chain...)
-		chainDescs = append(chainDescs, f.chainD...)
+		sh.cc = append(sh.cc, f.chain...)
+		sh.cd = append(sh.cd, f.chainD...)
 		ks := biscuit.WithSingularRootPublicKey(f.pub)
 		known := map[string]bool{}
 		for _, t := range f.toks {
@@ -447,8 +491,8 @@ func runC01(res *Result, rng *RNG, tier string, outDir string) {
 				res.Violate("library-token-rejected-later:"+t.Op, fmt.Sprintf("a token produced by %s no longer verifies after later derivations from its family: %v", t.Op, err), rep)
 			}
 			f.addVerifyOracle(f.pub, t.C)
-			vcases = append(vcases, fmt.Sprintf("{| vc_keys := KSingular %s; vc_cont := %s; vc_obs := %s |}", coqBytes(f.pub), t.C.coq(), classObs(class)))
-			vdescs = append(vdescs, "unmutated "+t.Op)
+			sh.vc = append(sh.vc, fmt.Sprintf("{| vc_keys := KSingular %s; vc_cont := %s; vc_obs := %s |}", coqBytes(f.pub), t.C.coq(), classObs(class)))
+			sh.vd = append(sh.vd, "unmutated "+t.Op)
 			for _, m := range f.mutations(r, ti) {
 				class, _, pan := verifyGo(m.Bytes, ks)
 				res.Count(string(m.Bytes), !known[string(m.Bytes)])
@@ -480,21 +524,12 @@ func runC01(res *Result, rng *RNG, tier string, outDir string) {
 					continue
 				}
 				f.addVerifyOracle(f.pub, mc)
-				vcases = append(vcases, fmt.Sprintf("{| vc_keys := KSingular %s; vc_cont := %s; vc_obs := %s |}", coqBytes(f.pub), mc.coq(), classObs(class)))
-				vdescs = append(vdescs, "mutation "+m.Name)
+				sh.vc = append(sh.vc, fmt.Sprintf("{| vc_keys := KSingular %s; vc_cont := %s; vc_obs := %s |}", coqBytes(f.pub), mc.coq(), classObs(class)))
+				sh.vd = append(sh.vd, "mutation "+m.Name)
 			}
 		}
 	}
-	cf := NewCasesFile("Base Chain Corr")
-	cf.Raw(orc.coq(""))
-	cf.Raw("Definition ccases : list chain_case := [\n  " + joinLines(chainCases) + "].\n")
-	cf.Raw("Definition vcases : list verify_case := [\n  " + joinLines(vcases) + "].\n")
-	cf.Raw("Definition Mchain := Eval vm_compute in mismatches (chain_ok pub_tbl sign_tbl) ccases.\nPrint Mchain.\n")
-	cf.Raw("Definition Mverify := Eval vm_compute in mismatches (verify_ok pub_tbl ver_tbl) vcases.\nPrint Mverify.\n")
-	cf.WriteTo(outDir, "Cases_C01.v")
-	res.ModelCases = len(chainCases) + len(vcases)
-	res.CaseDescs = append(chainDescs, vdescs...)
-	res.Extra["group_sizes"] = []int{len(chainCases), len(vcases)}
+	sh.finish(res)
 }
 
 func newFamilyShared(rng *RNG, orc *oracle) *family {
@@ -587,14 +622,13 @@ func runC16(res *Result, rng *RNG, tier string, outDir string) {
 	if tier == "thorough" {
 		nfam = 100
 	}
-	orc := newOracle()
-	var vcases, vdescs, chainCases, chainDescs []string
+	sh := newChainShards(outDir, "C16", 3)
 	for fi := 0; fi < nfam; fi++ {
 		r := rng.Fork()
-		f := newFamilyShared(r, orc)
+		f := newFamilyShared(r, sh.nextFamily())
 		genFamilyInto(f, r, true)
-		chainCases = append(chainCases, f.chain...)
-		chainDescs = append(chainDescs, f.chainD...)
+		sh.cc = append(sh.cc, f.chain...)
+		sh.cd = append(sh.cd, f.chainD...)
 		wrongSeed := r.Bytes(32)
 		wrong := ed25519.NewKeyFromSeed(wrongSeed).Public().(ed25519.PublicKey)
 		for _, t := range f.toks {
@@ -677,21 +711,12 @@ func runC16(res *Result, rng *RNG, tier string, outDir string) {
 				if len(p.key) == 32 {
 					f.addVerifyOracle(p.key, t.C)
 				}
-				vcases = append(vcases, fmt.Sprintf("{| vc_keys := %s; vc_cont := %s; vc_obs := %s |}", p.coq, t.C.coq(), classObs(class)))
-				vdescs = append(vdescs, "lookup "+p.name)
+				sh.vc = append(sh.vc, fmt.Sprintf("{| vc_keys := %s; vc_cont := %s; vc_obs := %s |}", p.coq, t.C.coq(), classObs(class)))
+				sh.vd = append(sh.vd, "lookup "+p.name)
 			}
 		}
 	}
-	cf := NewCasesFile("Base Chain Corr")
-	cf.Raw(orc.coq(""))
-	cf.Raw("Definition ccases : list chain_case := [\n  " + joinLines(chainCases) + "].\n")
-	cf.Raw("Definition vcases : list verify_case := [\n  " + joinLines(vcases) + "].\n")
-	cf.Raw("Definition Mchain := Eval vm_compute in mismatches (chain_ok pub_tbl sign_tbl) ccases.\nPrint Mchain.\n")
-	cf.Raw("Definition Mverify := Eval vm_compute in mismatches (verify_ok pub_tbl ver_tbl) vcases.\nPrint Mverify.\n")
-	cf.WriteTo(outDir, "Cases_C16.v")
-	res.ModelCases = len(chainCases) + len(vcases)
-	res.CaseDescs = append(chainDescs, vdescs...)
-	res.Extra["group_sizes"] = []int{len(chainCases), len(vcases)}
+	sh.finish(res)
 }
 
 // ---------------- C17: revocation identifiers ----------------
@@ -702,11 +727,10 @@ func runC17(res *Result, rng *RNG, tier string, outDir string) {
 	if tier == "thorough" {
 		nfam = 250
 	}
-	orc := newOracle()
 	var rcases, rdescs []string
 	for fi := 0; fi < nfam; fi++ {
 		r := rng.Fork()
-		f := newFamilyShared(r, orc)
+		f := newFamilyShared(r, newOracle())
 		genFamilyInto(f, r, true)
 		f.frameCheck(res, "ids-changed-by-sibling")
 		// a sibling with identical content appended twice to the same parent
@@ -793,11 +817,10 @@ func runC09(res *Result, rng *RNG, tier string, outDir string) {
 	if tier == "thorough" {
 		nfam = 250
 	}
-	orc := newOracle()
-	var vcases, vdescs, chainCases, chainDescs []string
+	sh := newChainShards(outDir, "C09", 8)
 	for fi := 0; fi < nfam; fi++ {
 		r := rng.Fork()
-		f := newFamilyShared(r, orc)
+		f := newFamilyShared(r, sh.nextFamily())
 		var rid *uint32
 		if r.Bool() {
 			v := uint32(r.Intn(5))
@@ -838,8 +861,8 @@ func runC09(res *Result, rng *RNG, tier string, outDir string) {
 				res.Violate("sealed-not-verifying:"+vn, "sealed token does not verify under the root key: "+class+pan, rep)
 			}
 			f.addVerifyOracle(f.pub, v.C)
-			vcases = append(vcases, fmt.Sprintf("{| vc_keys := KSingular %s; vc_cont := %s; vc_obs := %s |}", coqBytes(f.pub), v.C.coq(), classObs(class)))
-			vdescs = append(vdescs, vn)
+			sh.vc = append(sh.vc, fmt.Sprintf("{| vc_keys := KSingular %s; vc_cont := %s; vc_obs := %s |}", coqBytes(f.pub), v.C.coq(), classObs(class)))
+			sh.vd = append(sh.vd, vn)
 			// frozen
 			bb := v.Tok.CreateBlock()
 			if _, err := v.Tok.Append(detReader{r.Fork()}, bb.Build()); err == nil {
@@ -907,25 +930,65 @@ func runC09(res *Result, rng *RNG, tier string, outDir string) {
 				continue
 			}
 			f.addVerifyOracle(f.pub, mc)
-			vcases = append(vcases, fmt.Sprintf("{| vc_keys := KSingular %s; vc_cont := %s; vc_obs := %s |}", coqBytes(f.pub), mc.coq(), classObs(class)))
-			vdescs = append(vdescs, "tamper "+m.Name)
+			sh.vc = append(sh.vc, fmt.Sprintf("{| vc_keys := KSingular %s; vc_cont := %s; vc_obs := %s |}", coqBytes(f.pub), mc.coq(), classObs(class)))
+			sh.vd = append(sh.vd, "tamper "+m.Name)
 		}
 		// model: Append/Seal on the sealed container are refused
-		chainCases = append(chainCases, f.chain...)
-		chainDescs = append(chainDescs, f.chainD...)
-		chainCases = append(chainCases, fmt.Sprintf("{| cc_op := OpSeal (%s); cc_src := []; cc_obs := OErr ESealed |}", s.C.coq()),
+		sh.cc = append(sh.cc, f.chain...)
+		sh.cd = append(sh.cd, f.chainD...)
+		sh.cc = append(sh.cc, fmt.Sprintf("{| cc_op := OpSeal (%s); cc_src := []; cc_obs := OErr ESealed |}", s.C.coq()),
 			fmt.Sprintf("{| cc_op := OpAppend (%s) []; cc_src := %s; cc_obs := OErr ESealed |}", s.C.coq(), coqBytes(r.Bytes(40))))
-		chainDescs = append(chainDescs, "seal on sealed", "append on sealed")
+		sh.cd = append(sh.cd, "seal on sealed", "append on sealed")
 	}
 	overridePub = nil
+	sh.finish(res)
+}
+
+// chainShards collects the chain/verify cases of a few families at a time, each group with its
+// own oracle tables, and writes one Cases file per group (evaluated in parallel by the check).
+type chainShards struct {
+	outDir, prop   string
+	famPer, nfam   int
+	orc            *oracle
+	cc, cd, vc, vd []string
+	groups         []map[string]interface{}
+	descs          []string
+	total, k       int
+}
+
+func newChainShards(outDir, prop string, famPer int) *chainShards {
+	return &chainShards{outDir: outDir, prop: prop, famPer: famPer, orc: newOracle()}
+}
+
+func (s *chainShards) nextFamily() *oracle {
+	if s.nfam == s.famPer {
+		s.flush()
+	}
+	s.nfam++
+	return s.orc
+}
+
+func (s *chainShards) flush() {
 	cf := NewCasesFile("Base Chain Corr")
-	cf.Raw(orc.coq(""))
-	cf.Raw("Definition ccases : list chain_case := [\n  " + joinLines(chainCases) + "].\n")
-	cf.Raw("Definition vcases : list verify_case := [\n  " + joinLines(vcases) + "].\n")
+	cf.Raw(s.orc.coq(""))
+	cf.Raw("Definition ccases : list chain_case := [\n  " + joinLines(s.cc) + "].\n")
+	cf.Raw("Definition vcases : list verify_case := [\n  " + joinLines(s.vc) + "].\n")
 	cf.Raw("Definition Mchain := Eval vm_compute in mismatches (chain_ok pub_tbl sign_tbl) ccases.\nPrint Mchain.\n")
 	cf.Raw("Definition Mverify := Eval vm_compute in mismatches (verify_ok pub_tbl ver_tbl) vcases.\nPrint Mverify.\n")
-	cf.WriteTo(outDir, "Cases_C09.v")
-	res.ModelCases = len(chainCases) + len(vcases)
-	res.CaseDescs = append(chainDescs, vdescs...)
-	res.Extra["group_sizes"] = []int{len(chainCases), len(vcases)}
+	name := fmt.Sprintf("Cases_%s_%03d.v", s.prop, s.k)
+	cf.WriteTo(s.outDir, name)
+	s.groups = append(s.groups, map[string]interface{}{"file": name, "sizes": []int{len(s.cc), len(s.vc)}})
+	s.descs = append(append(s.descs, s.cd...), s.vd...)
+	s.total += len(s.cc) + len(s.vc)
+	s.k++
+	s.orc, s.cc, s.cd, s.vc, s.vd, s.nfam = newOracle(), nil, nil, nil, nil, 0
+}
+
+func (s *chainShards) finish(res *Result) {
+	if s.nfam > 0 || s.k == 0 {
+		s.flush()
+	}
+	res.ModelCases = s.total
+	res.CaseDescs = s.descs
+	res.Extra["groups"] = s.groups
 }
